@@ -11,7 +11,7 @@ template <class F> inline Outcome guarded(vh::Ctx& c, const Shape& s, const std:
     catch (const std::exception& e) {
         std::string m = e.what();
         if (m.find("mplement") != std::string::npos) { c.obs(std::string("unobservable:") + s.name() + ":" + what); return UNIMPL; }
-        c.viol(std::string("exception:") + s.name() + ":" + what + ":" + vh::normMsg(m).substr(0, 80),
+        c.viol(std::string("exception@") + s.name() + ":" + what + ":" + vh::normMsg(m).substr(0, 80),
                Json::obj().set("shape", s.json()).set("what", vh::firstLine(m, 500)));
         return EXC;
     }
@@ -47,18 +47,22 @@ inline Query genQuery(const Shape& s, int region, int sub, vh::Rng& r, const Vec
     case 5: q.x = sp.p + sp.n * (s.size * (r.coin() ? 1 : -1) * r.logUni(1e-9, 1e-5)); break;
     case 4:
         switch (s.kind) {
-        case SPHERE: q.x = Vec3(0); break;
+        case SPHERE: q.x = Vec3(0); q.region = "degenerate-center"; break;
         case ELLIPSOID: {
             int k = sub % 5, ax = r.integer(0, 2);
+            static const char* DN[5] = {"degenerate-center", "degenerate-axis-inside", "degenerate-axis-outside", "degenerate-plane-inside", "degenerate-plane"};
+            q.region = DN[k];
             if (k == 0) q.x = Vec3(0);
             else if (k == 1) { q.x = Vec3(0); q.x[ax] = s.abc[ax] * r.uni(-0.95, 0.95); }                  // on an axis, inside
             else if (k == 2) { q.x = Vec3(0); q.x[ax] = s.abc[ax] * r.uni(1.05, 4) * (r.coin() ? 1 : -1); }   // on an axis, outside
             else if (k == 3) { q.x = pullInside(s, sp, r.uni(0.05, 0.9)); q.x[ax] = 0; }                    // symmetry plane, inside
             else { q.x = sp.p + sp.n * (s.size * r.uni(0.1, 2)); q.x[ax] = 0; }                              // symmetry plane (mostly outside)
         } break;
-        case CYLINDER: q.x = Vec3(0, 0, focus[2] + r.sym(L)); break;
+        case CYLINDER: q.x = Vec3(0, 0, focus[2] + r.sym(L)); q.region = "degenerate-axis"; break;
         case TORUS: {
             int k = sub % 3; double a = r.uni(0, 2 * PI);
+            static const char* DN[3] = {"degenerate-axis", "degenerate-center-circle", "degenerate-origin"};
+            q.region = DN[k];
             if (k == 0) q.x = Vec3(0, 0, r.sym(2 * s.size));
             else if (k == 1) q.x = Vec3(s.R * std::cos(a), s.R * std::sin(a), 0);       // on the centre circle
             else q.x = Vec3(0);
@@ -66,6 +70,8 @@ inline Query genQuery(const Shape& s, int region, int sub, vh::Rng& r, const Vec
         case HALFSPACE: q.x = Vec3(0, focus[1] + r.sym(L), focus[2] + r.sym(L)); break;
         case BRICK: {
             int k = sub % 3;
+            static const char* DN[3] = {"degenerate-center", "degenerate-equidistant", "degenerate-vertex-edge"};
+            q.region = DN[k];
             if (k == 0) q.x = Vec3(0);
             else if (k == 1) { double m = std::min(s.abc[0], std::min(s.abc[1], s.abc[2])) * r.uni(0.1, 0.9);    // equidistant to three faces
                                q.x = Vec3(s.abc[0] - m, s.abc[1] - m, s.abc[2] - m); }
@@ -73,6 +79,8 @@ inline Query genQuery(const Shape& s, int region, int sub, vh::Rng& r, const Vec
         } break;
         case MESH: {
             int k = sub % 3, f = r.integer(0, s.mesh.nf() - 1);
+            static const char* DN[3] = {"degenerate-center", "degenerate-vertex", "degenerate-edge"};
+            q.region = DN[k];
             if (k == 0) q.x = s.mesh.center;
             else if (k == 1) q.x = s.mesh.v[s.mesh.f[3 * f]];
             else q.x = 0.5 * (s.mesh.v[s.mesh.f[3 * f]] + s.mesh.v[s.mesh.f[3 * f + 1]]);
@@ -91,7 +99,7 @@ inline double nearTol(const Shape& s) {
 
 // ------------------------------------------------------------------ findNearestPoint
 inline void nearestChecks(vh::Ctx& c, const Shape& s, vh::Rng& r, long idx, int nq) {
-    const std::string sh = s.name();
+    const std::string sh = s.keyName;
     Vec3 focus = randBox(r, 3 * s.size); double L = 4 * s.size;
     for (int q = 0; q < nq; ++q) {
         int region = (int)((idx / NKIND + q) % 6);
@@ -114,15 +122,15 @@ inline void nearestChecks(vh::Ctx& c, const Shape& s, vh::Rng& r, long idx, int 
             Vec3 ps = box.findClosestPointOfSolidBox(Q.x, inC);
             LD iv = insideValue(s, V3(Q.x));
             c.cover("box-closest:" + cell);
-            if (!c.require("nan:brick:box-closest:" + Q.region, finite3(p) && finite3(ps), W(p, "NaN from Geo::Box closest point"))) continue;
-            c.check("onsurface:brick:box-closest:" + Q.region, (double)std::fabs(insideValue(s, V3(p))), 1e-12 * sc, W(p, "closest point not on box surface"));
-            c.check("optimal:brick:box-closest:" + Q.region, (p - Q.x).norm() - (double)std::fabs(iv), 1e-12 * sc, W(p, "closest surface point farther than exact distance"));
-            c.check("optimal:brick:box-solid:" + Q.region, (ps - Q.x).norm() - (double)std::max<LD>(-iv, 0), 1e-12 * sc, W(ps, "closest solid point farther than exact distance"));
-            c.check("value:brick:box-distsqr:" + Q.region, std::fabs(box.findDistanceSqrToPoint(Q.x) - (double)(iv < 0 ? iv * iv : 0)), 1e-12 * sc * sc, W(p, "findDistanceSqrToPoint"));
+            if (!c.require("nan@brick:box-closest:" + Q.region, finite3(p) && finite3(ps), W(p, "NaN from Geo::Box closest point"))) continue;
+            c.check("onsurface@brick:box-closest:" + Q.region, (double)std::fabs(insideValue(s, V3(p))), 1e-12 * sc, W(p, "closest point not on box surface"));
+            c.check("optimal@brick:box-closest:" + Q.region, (p - Q.x).norm() - (double)std::fabs(iv), 1e-12 * sc, W(p, "closest surface point farther than exact distance"));
+            c.check("optimal@brick:box-solid:" + Q.region, (ps - Q.x).norm() - (double)std::max<LD>(-iv, 0), 1e-12 * sc, W(ps, "closest solid point farther than exact distance"));
+            c.check("value@brick:box-distsqr:" + Q.region, std::fabs(box.findDistanceSqrToPoint(Q.x) - (double)(iv < 0 ? iv * iv : 0)), 1e-12 * sc * sc, W(p, "findDistanceSqrToPoint"));
             if (std::fabs((double)iv) > 1e-9 * sc) {
                 bool truth = iv > 0;
-                c.require("inside:brick:box-closest:" + Q.region, inA == truth && inB == truth && inC == truth, W(p, "ptWasInside flag wrong"));
-                c.require("inside:brick:box-contains:" + Q.region, box.containsPoint(Q.x) == truth, W(p, "containsPoint wrong"));
+                c.require("inside@brick:box-closest:" + Q.region, inA == truth && inB == truth && inC == truth, W(p, "ptWasInside flag wrong"));
+                c.require("inside@brick:box-contains:" + Q.region, box.containsPoint(Q.x) == truth, W(p, "containsPoint wrong"));
             }
             continue;
         }
@@ -135,25 +143,25 @@ inline void nearestChecks(vh::Ctx& c, const Shape& s, vh::Rng& r, long idx, int 
         c.cover("nearest:" + cell);
         if (s.kind == HEIGHTMAP) {
             // SmoothHeightMap::findNearestPoint is "assert(false); return NaN" - silent in release builds
-            if (!finite3(p)) { c.viol("unimplemented-silent:heightmap:findNearestPoint", W(p, "returns NaN without raising the documented exception")()); }
+            if (!finite3(p)) { c.viol("unimplemented-silent@heightmap:findNearestPoint", W(p, "returns NaN without raising the documented exception")()); }
             else c.obs("heightmap-nearest-finite");
             continue;
         }
-        if (!c.require("nan:" + sh + ":nearest-point:" + Q.region, finite3(p), W(p, "nearest point has NaN/Inf"))) continue;
-        c.require("deterministic:" + sh + ":nearest-point", (p - p2).norm() == 0, W(p2, "two identical calls differ"));
+        if (!c.require("nan@" + sh + ":nearest-point:" + Q.region, finite3(p), W(p, "nearest point has NaN/Inf"))) continue;
+        c.require("deterministic@" + sh + ":nearest-point", (p - p2).norm() == 0, W(p2, "two identical calls differ"));
         bool insideSet = !(inA == false && inB == true), normalSet = !((Vec3(nA) - Vec3(1, 0, 0)).norm() == 0 && (Vec3(nB) - Vec3(0, 1, 0)).norm() == 0);
-        c.require("notset:" + sh + ":inside-flag", insideSet, W(p, "inside output never written (caller's value survives)"));
-        c.require("notset:" + sh + ":normal", normalSet, W(p, "normal output never written (caller's value survives)"));
+        c.require("notset@" + sh + ":inside-flag", insideSet, W(p, "inside output never written (caller's value survives)"));
+        c.require("notset@" + sh + ":normal", normalSet, W(p, "normal output never written (caller's value survives)"));
         const double tol = nearTol(s) * sc;
         // (i) on the surface
         LD dsurf = 0; exactDistance(s, V3(p), dsurf);
-        c.check("onsurface:" + sh + ":nearest:" + Q.region, (double)dsurf, tol, W(p, "returned point is not on the surface"));
+        c.check("onsurface@" + sh + ":nearest:" + Q.region, (double)dsurf, tol, W(p, "returned point is not on the surface"));
         if (s.kind == MESH) {
             int face = -1; Vec2 uv(NaN); bool in2 = false;
             Vec3 pf = s.tm->findNearestPoint(Q.x, in2, face, uv);
             bool okf = face >= 0 && face < s.mesh.nf() && uv[0] >= -1e-12 && uv[1] >= -1e-12 && uv[0] + uv[1] <= 1 + 1e-12;
-            if (c.require("faceuv:mesh:nearest-range", okf, W(pf, "face/uv out of range")))
-                c.check("faceuv:mesh:nearest-reproduce", (s.tm->findPoint(face, uv) - pf).norm(), 1e-12 * sc, W(pf, "findPoint(face,uv) != returned point"));
+            if (c.require("faceuv@mesh:nearest-range", okf, W(pf, "face/uv out of range")))
+                c.check("faceuv@mesh:nearest-reproduce", (s.tm->findPoint(face, uv) - pf).norm(), 1e-12 * sc, W(pf, "findPoint(face,uv) != returned point"));
         }
         // (ii) optimality: exact distance where known, plus search over the surface
         LD dex = 0; bool haveExact = exactDistance(s, V3(Q.x), dex);
@@ -166,7 +174,7 @@ inline void nearestChecks(vh::Ctx& c, const Shape& s, vh::Rng& r, long idx, int 
                 c.viol("harness:closed-form-beaten-by-sampling:" + sh, W(p, "harness oracle inconsistency")());
             dbest = std::min(dbest, ds);
         }
-        c.check("optimal:" + sh + ":nearest:" + Q.region, dlib - dbest * (1 + 1e-9), tol, W(p, "a closer surface point exists"));
+        c.check("optimal@" + sh + ":nearest:" + Q.region, dlib - dbest * (1 + 1e-9), tol, W(p, "a closer surface point exists"));
         // (iii) inside flag
         if (insideSet) {
             bool judged = false, truth = false;
@@ -177,20 +185,20 @@ inline void nearestChecks(vh::Ctx& c, const Shape& s, vh::Rng& r, long idx, int 
                 LD band = (s.kind == ELLIPSOID ? 1e-9L : 1e-9L * sc);
                 if (std::fabs(iv) > band) { judged = true; truth = iv > 0; }
             }
-            if (judged) c.require("inside:" + sh + ":nearest:" + Q.region, inA == truth && inB == truth, W(p, truth ? "query is inside, flag says outside" : "query is outside, flag says inside"));
+            if (judged) c.require("inside@" + sh + ":nearest:" + Q.region, inA == truth && inB == truth, W(p, truth ? "query is inside, flag says outside" : "query is outside, flag says inside"));
             else c.obs("inside-flag-on-boundary-not-judged");
         }
         // normal: unit, outward normal of the surface at p
         if (normalSet) {
             Vec3 n(nA);
-            if (c.require("nan:" + sh + ":nearest-normal:" + Q.region, finite3(n), W(p, "normal has NaN"))) {
-                c.check("unit:" + sh + ":nearest-normal", std::fabs(n.norm() - 1), 1e-12, W(p, "normal not unit"));
+            if (c.require("nan@" + sh + ":nearest-normal:" + Q.region, finite3(n), W(p, "normal has NaN"))) {
+                c.check("unit@" + sh + ":nearest-normal", std::fabs(n.norm() - 1), 1e-12, W(p, "normal not unit"));
                 if (s.kind == MESH) {
                     int face = -1; Vec2 uv; bool in2;
                     s.tm->findNearestPoint(Q.x, in2, face, uv);
                     V3 A = s.mesh.vert(face, 0), B = s.mesh.vert(face, 1), C = s.mesh.vert(face, 2);
                     V3 fn = cross(B - A, C - A); fn = (1 / norm(fn)) * fn;
-                    c.check("normal:mesh:nearest-face-normal", (n - toVec3(fn)).norm(), 1e-9, W(p, "normal is not the outward normal of the reported face"));
+                    c.check("normal@mesh:nearest-face-normal", (n - toVec3(fn)).norm(), 1e-9, W(p, "normal is not the outward normal of the reported face"));
                 } else if ((double)dsurf <= tol) {
                     // analytic outward normal at the returned point (skip singular spots of the parameterisation)
                     Vec3 an(NaN);
@@ -202,7 +210,7 @@ inline void nearestChecks(vh::Ctx& c, const Shape& s, vh::Rng& r, long idx, int 
                     case TORUS: { double rho = std::sqrt(p[0] * p[0] + p[1] * p[1]); Vec3 cc(p[0] / rho * s.R, p[1] / rho * s.R, 0); an = (p - cc) / (p - cc).norm(); } break;
                     default: break;
                     }
-                    if (finite3(an)) c.check("normal:" + sh + ":nearest:" + Q.region, (n - an).norm(), s.kind == ELLIPSOID ? 1e-6 : 1e-9, W(p, "normal is not the outward surface normal at the returned point"));
+                    if (finite3(an)) c.check("normal@" + sh + ":nearest:" + Q.region, (n - an).norm(), s.kind == ELLIPSOID ? 1e-6 : 1e-9, W(p, "normal is not the outward surface normal at the returned point"));
                 }
             }
         }
@@ -212,7 +220,7 @@ inline void nearestChecks(vh::Ctx& c, const Shape& s, vh::Rng& r, long idx, int 
 
 // ------------------------------------------------------------------ calcSupportPoint
 inline void supportChecks(vh::Ctx& c, const Shape& s, vh::Rng& r, long idx, int nq) {
-    const std::string sh = s.name();
+    const std::string sh = s.keyName;
     bool convex = s.g->isConvex();
     for (int q = 0; q < nq; ++q) {
         int cls = (int)((idx / NKIND + q) % 3);
@@ -225,38 +233,38 @@ inline void supportChecks(vh::Ctx& c, const Shape& s, vh::Rng& r, long idx, int 
         Vec3 sp(NaN);
         Outcome o = guarded(c, s, "calcSupportPoint", [&] { sp = s.g->calcSupportPoint(UnitVec3(d)); });
         if (o != OK) continue;
-        if (!convex) { c.obs(std::string("support-of-nonconvex-not-judged:") + sh); continue; }
+        if (!convex) { c.obs(std::string("support-of-nonconvex-not-judged@") + sh); continue; }
         auto W = [&, sp, d]() { return Json::obj().set("shape", s.json()).set("direction", jv(d)).set("returned", jv(sp)); };
-        c.cover("support:" + sh + ":" + dc);
+        c.cover("support@" + sh + ":" + dc);
         if (s.kind == CYLINDER) {
-            if (!finite3(sp)) { if (!(d[2] != 0)) c.viol("unimplemented-silent:cylinder:calcSupportPoint", W()); else c.obs("cylinder-support-along-axis-unbounded"); continue; }
+            if (!finite3(sp)) { if (!(d[2] != 0)) c.viol("unimplemented-silent@cylinder:calcSupportPoint", W()); else c.obs("cylinder-support-along-axis-unbounded"); continue; }
         }
-        if (!c.require("nan:" + sh + ":support", finite3(sp), W)) continue;
+        if (!c.require("nan@" + sh + ":support", finite3(sp), W)) continue;
         const double sc = s.size;
-        c.check("onsurface:" + sh + ":support", (double)std::fabs(insideValue(s, V3(sp))) * (s.kind == ELLIPSOID ? s.size : 1), 1e-11 * sc, W);
+        c.check("onsurface@" + sh + ":support", (double)std::fabs(insideValue(s, V3(sp))) * (s.kind == ELLIPSOID ? s.size : 1), 1e-11 * sc, W);
         double h = NaN;
         if (s.kind == SPHERE) h = s.R;
         else if (s.kind == ELLIPSOID) h = Vec3(s.abc[0] * d[0], s.abc[1] * d[1], s.abc[2] * d[2]).norm();
         else if (s.kind == BRICK) h = s.abc[0] * std::fabs(d[0]) + s.abc[1] * std::fabs(d[1]) + s.abc[2] * std::fabs(d[2]);
         else if (s.kind == CYLINDER) h = s.R;
         double got = SimTK::dot(d, sp);
-        if (std::isfinite(h)) c.check("maximal:" + sh + ":support-closed-form", h - got, 1e-12 * sc, W);
+        if (std::isfinite(h)) c.check("maximal@" + sh + ":support-closed-form", h - got, 1e-12 * sc, W);
         double mx = -Infinity;
         for (int i = 0; i < 600; ++i) mx = std::max(mx, SimTK::dot(d, surfPoint(s, r.uni(), r.uni(), sp, s.size).p));
-        c.check("maximal:" + sh + ":support-samples", mx - got, 1e-12 * sc, W);
+        c.check("maximal@" + sh + ":support-samples", mx - got, 1e-12 * sc, W);
     }
 }
 
 // ------------------------------------------------------------------ getBoundingSphere
 inline void boundingChecks(vh::Ctx& c, const Shape& s, vh::Rng& r) {
-    const std::string sh = s.name();
+    const std::string sh = s.keyName;
     c.setPhase("getBoundingSphere " + sh);
     Vec3 ctr(NaN); Real rad = NaN;
     if (guarded(c, s, "getBoundingSphere", [&] { s.g->getBoundingSphere(ctr, rad); }) != OK) return;
     auto W = [&, ctr, rad]() { return Json::obj().set("shape", s.json()).set("center", jv(ctr)).set("radius", rad); };
     c.cover("bsphere:" + sh);
-    if (!s.finite()) { c.require("bsphere:" + sh + ":infinite-shape-needs-infinite-radius", rad == Infinity, W); return; }
-    if (!c.require("nan:" + sh + ":bsphere", finite3(ctr) && std::isfinite(rad) && rad >= 0, W)) return;
+    if (!s.finite()) { c.require("bsphere@" + sh + ":infinite-shape-needs-infinite-radius", rad == Infinity, W); return; }
+    if (!c.require("nan@" + sh + ":bsphere", finite3(ctr) && std::isfinite(rad) && rad >= 0, W)) return;
     double worst = 0;
     int n = s.kind == HEIGHTMAP ? 40 : 30;
     for (int i = 0; i <= n; ++i) for (int j = 0; j <= n; ++j) {
@@ -265,8 +273,8 @@ inline void boundingChecks(vh::Ctx& c, const Shape& s, vh::Rng& r) {
     }
     for (int i = 0; i < 300; ++i) worst = std::max(worst, (surfPoint(s, r.uni(), r.uni(), ctr, s.size).p - ctr).norm() - rad);
     if (s.kind == MESH) for (auto& v : s.mesh.v) worst = std::max(worst, (v - ctr).norm() - rad);
-    c.check("contains:" + sh + ":bsphere", worst, 1e-12 * (s.size + ctr.norm()), W);
-    c.require("tight:" + sh + ":bsphere-not-absurd", rad <= 3 * s.size + 1e-9, W);
+    c.check("contains@" + sh + ":bsphere", worst, 1e-12 * (s.size + ctr.norm()), W);
+    c.require("tight@" + sh + ":bsphere-not-absurd", rad <= 3 * s.size + 1e-9, W);
 }
 
 }  // namespace c34
